@@ -333,6 +333,9 @@ class C05(Check):
             cands = [c for c in cands if not c.startswith("vertex V l=")] or cands
             if rng.random() < 0.35:
                 cands = list(cache_extra(p, rng))
+            if rng.random() < 0.12:
+                # the caller edits a list it was handed earlier; no later answer may change
+                cands = ["mut %d %d" % (rng.randrange(10 ** 6), rng.randrange(10 ** 6))]
             do(rng.choice(cands))
             if rng.random() < 0.6:
                 was_on = Vertex.NEIGHBOR_CACHING
@@ -343,6 +346,13 @@ class C05(Check):
         return lines, outs
 
     def batches(self, tier, rng, real):
+        real.inner.keep_mode = True        # results handed out are kept so that the caller can edit them (`mut`)
+        try:
+            yield from self._batches(tier, rng, real)
+        finally:
+            real.inner.keep_mode = False
+
+    def _batches(self, tier, rng, real):
         quick = tier == "quick"
         # audit mode on the structure seeds: every op instance, caches warmed before and audited after
         for _name, lines, pool in gen.struct_seeds():
